@@ -292,7 +292,19 @@ func (s *Std) Bytes(arg *[]byte) ([]byte, *erpc.Status) {
 // Blank answers with what it was given, possibly nothing at all: "blank:<len>:<bytes>".
 func (s *Std) Blank(arg *[]byte) ([]byte, *erpc.Status) {
 	simrt.YieldQuiet()
+	if e := curEnv; e != nil {
+		e.Probe("blank-handler-ran")
+	}
 	return []byte(fmt.Sprintf("blank:%d:%s", len(*arg), *arg)), nil
+}
+
+// Void takes whatever it is given and answers without a result (an empty reply body).
+func (s *Std) Void(arg *[]byte) ([]byte, *erpc.Status) {
+	simrt.YieldQuiet()
+	if e := curEnv; e != nil {
+		e.Probe("void-handler-ran")
+	}
+	return nil, nil
 }
 
 // Note handles a Payload push.
@@ -325,6 +337,8 @@ type Routes struct {
 	Echo, Plain, Bytes, Note, NotePlain string
 	// Blank names a handler that accepts an empty body and answers with what it got
 	Blank string
+	// Void names a handler that answers with an empty body
+	Void string
 	// EchoFn and EchoMx name the Echo handler registered in the two function forms (empty: not registered)
 	EchoFn, EchoMx string
 	// NoteFn and NoteMx: the same for the Note push handler
@@ -354,6 +368,7 @@ func (e *Env) RegisterStd(p erpc.Peer) Routes {
 	r.Plain = find(calls, "plain")
 	r.Bytes = find(calls, "bytes")
 	r.Blank = find(calls, "blank")
+	r.Void = find(calls, "void")
 	if e.Opt.Mapper == "rpc" {
 		r.NotePlain = find(pushes, "noteplain")
 	} else {
